@@ -309,26 +309,43 @@ def run(ctx):
                         "an entry value or the config file (" + pr[8:] + ")", f.loc(call), derived=ast.unparse(call)[:120],
                         required="_cache_file_path / _entries value / cache-miss path / config file")
     gf = p.get_method(FC, "_get_cache_files")
-    comps = [n for n in ast.walk(gf.node) if isinstance(n, ast.ListComp)]
-    okf = False
-    for comp in comps:
-        conds = []
-        for g in comp.generators:
-            for c in g.ifs:
-                conds += c.values if isinstance(c, ast.BoolOp) and isinstance(c.op, ast.And) else [c]
-        # each test must be a conjunct of its own (a disjunction `prefix or postfix` admits near-miss foreign names)
-        def is_test(c, meth, const):
-            return isinstance(c, ast.Call) and isinstance(c.func, ast.Attribute) and c.func.attr == meth and len(c.args) == 1 \
-                and ast.unparse(c.args[0]) == "self." + const
-        has_pre = any(is_test(c, "startswith", "CACHE_FILE_PREFIX") for c in conds)
-        has_post = any(is_test(c, "endswith", "CACHE_FILE_POSTFIX") for c in conds)
-        if has_pre and has_post:
-            okf = True
+
+    def conjuncts(c):
+        """conjuncts of a condition, looking through `self.<predicate>(x)` helper methods that return a boolean expression"""
+        if isinstance(c, ast.BoolOp) and isinstance(c.op, ast.And):
+            out = []
+            for v in c.values:
+                out += conjuncts(v)
+            return out
+        if isinstance(c, ast.Call) and isinstance(c.func, ast.Attribute) and isinstance(c.func.value, ast.Name) and c.func.value.id == "self":
+            m = cache_cls.find_method(c.func.attr)
+            rets_ = [n for n in own_walk(m.node) if isinstance(n, ast.Return) and n.value is not None] if m is not None else []
+            if m is not None and len(rets_) == 1 and len(m.params) == 1 + len(c.args):
+                return conjuncts(rets_[0].value)
+        return [c]
+
+    def is_test(c, meth, const):
+        return isinstance(c, ast.Call) and isinstance(c.func, ast.Attribute) and c.func.attr == meth and len(c.args) == 1 \
+            and ast.unparse(c.args[0]) == "self." + const
+    # the filter is whatever guards the names that are returned: the `if`s of a comprehension, or the test around an append
+    filters = []
+    for n in ast.walk(gf.node):
+        if isinstance(n, (ast.ListComp, ast.GeneratorExp, ast.SetComp)):
+            cs = [c for g in n.generators for c in g.ifs]
+            if cs:
+                filters.append([x for c in cs for x in conjuncts(c)])
+        elif isinstance(n, ast.If) and any(isinstance(c, ast.Call) and isinstance(c.func, ast.Attribute) and c.func.attr == "append"
+                                           for b_ in n.body for c in ast.walk(b_)):
+            filters.append(conjuncts(n.test))
+    okf = bool(filters) and all(any(is_test(c, "startswith", "CACHE_FILE_PREFIX") for c in cj)
+                                and any(is_test(c, "endswith", "CACHE_FILE_POSTFIX") for c in cj) for cj in filters)
     ctx.expect(okf, "R18.3", "_get_cache_files[filter]",
-               "adoption accepts a file only if it has the cache prefix AND the cache postfix", gf.loc())
+               "adoption accepts a file only if it has the cache prefix AND the cache postfix (each test a conjunct of its own)", gf.loc())
     ini = p.get_method(FC, "_initialize_cache")
-    reg = [n for n in own_walk(ini.node) if isinstance(n, ast.For) and (dotted(n.iter) or "").endswith("._get_cache_files()")]
-    ctx.expect(bool(reg), "R18.3", "_initialize_cache[adoption source]",
+    reg = [n for n in ast.walk(ini.node) if (isinstance(n, ast.For) and (dotted(n.iter) or "").endswith("._get_cache_files()"))
+           or (isinstance(n, ast.comprehension) and (dotted(n.iter) or "").endswith("._get_cache_files()"))]
+    other = [n for n in ast.walk(ini.node) if isinstance(n, ast.Call) and resolve_ext(p, ini, n) in ("os.listdir", "os.walk", "os.scandir", "glob.glob")]
+    ctx.expect(bool(reg) and not other, "R18.3", "_initialize_cache[adoption source]",
                "entries adopted on start-up come only from the filtered listing", ini.loc())
 
     # ---- R18.4 hits
